@@ -269,7 +269,7 @@ def report(mod, tier, seed, cases, results, wall, max_report=20):
         shown = 0
         for k, lst in byk.items():
             c, r = lst[0]
-            path = write_replay(pid, c, r)
+            path = write_replay(pid, r.get("replay_case", c), r)
             print(f"VIOLATION property={pid} replay={path}")
             print(f"   key={k} cases={len(lst)} detail={str(r.get('detail'))[:400]}")
             shown += 1
